@@ -152,7 +152,7 @@ func (h *harness) historyCheck(c Case) {
 		return
 	}
 	// shrink: drop steps while it still fails the same way
-	for changed := true; changed && len(c.Steps) > 1; {
+	for changed := h.worthShrinking(f); changed && len(c.Steps) > 1; {
 		changed = false
 		for i := range c.Steps {
 			cand := c
